@@ -302,7 +302,7 @@ pub fn check(case: &Case) -> Verdict {
     let nm = m.non_matching_bytes().cloned();
     let ctx = || {
         format!(
-            " patterns={:?} case={:?} word={} whole_line={} fixed={} term={:?} unicode={}\n final HIR: {}\n fast-line literals: {:?}",
+            " patterns={:?} case={:?} word={} whole_line={} fixed={} term={:?} unicode={} ban_nul={}\n final HIR: {}\n fast-line literals: {:?}",
             pat.patterns,
             pat.case,
             pat.word,
@@ -310,6 +310,7 @@ pub fn check(case: &Case) -> Verdict {
             pat.fixed,
             pat.term,
             pat.unicode,
+            pat.ban_nul,
             h_hir,
             lits.as_ref().map(|l| l.iter().map(|x| Bs(x.clone())).collect::<Vec<_>>())
         )
@@ -495,6 +496,7 @@ pub fn check(case: &Case) -> Verdict {
         }
     }
     info.class_if(pat.patterns.iter().any(|p| p.contains(['\r', '\n', '\0'])), "raw_control_byte_in_accepted_pattern");
+    info.class_if(pat.ban_nul, "nul_banned");
     info.class_if(pat.word, "word");
     info.class_if(pat.whole_line, "whole_line");
     info.class_if(pat.case != CaseMode::Sensitive, "case_insensitive_or_smart");
@@ -568,6 +570,9 @@ fn variants(p: &str) -> Vec<PatCfg> {
             v.push(pc);
         }
     }
+    let mut banned = PatCfg::simple(p, Term::Lf);
+    banned.ban_nul = true;
+    v.push(banned);
     v
 }
 
@@ -585,6 +590,11 @@ pub fn gen_case(t: &mut Tape) -> Case {
         let cuts: Vec<usize> = p.char_indices().map(|(k, _)| k).chain(std::iter::once(p.len())).collect();
         let at = cuts[t.below(cuts.len())];
         p.insert_str(at, raw);
+    }
+    // the way ripgrep builds its matcher whenever binary detection is on: NUL is banned
+    // (patterns that must match it are rejected, classes containing it still match it)
+    if pat.term != Term::Nul && t.chance(1, 4) {
+        pat.ban_nul = true;
     }
     let ci = pat.case == CaseMode::Insensitive;
     let hirs: Vec<_> = pat
